@@ -22,6 +22,8 @@ pub fn registry() -> Vec<Box<dyn Scenario>> {
         Box::new(StatsTruth),
         Box::new(ExitContract),
         Box::new(Truthful),
+        Box::new(Views),
+        Box::new(PayloadCut),
     ]
 }
 
@@ -1385,5 +1387,252 @@ impl Scenario for Truthful {
             if f == Filter::None { "no filter" } else { "filter" }
         );
         Trial::Truthful { spec, label }
+    }
+}
+
+// ------------------------------------------------------------------------------------------------
+// C19
+// ------------------------------------------------------------------------------------------------
+pub struct Views;
+
+impl Scenario for Views {
+    fn property(&self) -> &'static str {
+        "C19"
+    }
+    fn n_cases(&self, tier: Tier) -> u64 {
+        match tier {
+            Tier::Quick => 2_500,
+            Tier::Thorough => 100_000,
+        }
+    }
+    fn rule(&self) -> String {
+        "case = well-framed stream: (a) arbitrary header values (all detector-field and trigger bits) + random ITS \
+         words in both data formats with every flag combination of TDH/TDT/DDW0 (random bits), known and unknown \
+         IDs, or (b) conforming multi-link streams (> 100 packets in part of the cases so that per-batch headers \
+         repeat); x the three views x filter (present / absent / none) x {file, pipe} x seeded schedules x benign \
+         short writes / EINTR on stdout. Oracle: rows parsed back from captured stdout: one row per walker RDH and \
+         per status word (and per data word in the data view; unknown IDs as an error line) in order, offset == \
+         walker offset, raw bytes == input bytes, decoded attributes (stave, trigger kind, link, lane status, \
+         orbit_bc; TDH trigger/continuation/no-data/orbit_bc; TDT packet status and lane faults; DDW0 lane faults) == \
+         reference decoding from the documented bit layouts; styled output with ANSI sequences and whitespace \
+         removed == unstyled; conforming data shows no error. Non-trivial: >= 2 packets and >= 3 threads."
+            .into()
+    }
+    fn make(&self, seed: u64, case: u64, _tier: Tier) -> Trial {
+        let mut rng = Rng::new(seed);
+        let conforming = case % 3 == 2;
+        let input = if conforming {
+            let mut cfg = GenCfg::swarm(&mut rng, false);
+            if rng.chance(1, 4) {
+                cfg.hbfs = (10, 30);
+            }
+            gen_conforming(&cfg, &mut rng).bytes()
+        } else {
+            let n = if rng.chance(1, 6) { rng.range(100, 230) as usize } else { rng.range(1, 60) as usize };
+            let nl = rng.range(1, 5) as usize;
+            let mw = *rng.pick(&[3usize, 12, 60]);
+            let pu = if rng.chance(1, 2) { 0 } else { 60 };
+            let sane = rng.chance(1, 2);
+            gen_framed_words(&mut rng, n, mw, nl, pu, sane)
+        };
+        let f = filter_from_walk(&input, &mut rng);
+        let v = VIEW_MODES[(case % 3) as usize];
+        let mut parts = s(v);
+        parts.extend(f.args());
+        let im = pick_input_mode(&mut rng);
+        let mut styled = specgen::spec(im.clone(), &parts, input.clone());
+        parts.push("-d".into());
+        let mut plain = specgen::spec(im, &parts, input);
+        for sp in [&mut plain, &mut styled] {
+            if rng.chance(3, 4) {
+                swarm_schedule(sp, &mut rng, 800);
+            }
+            if rng.chance(1, 2) {
+                benign_io(sp, &mut rng);
+            }
+        }
+        let label = format!(
+            "{} | {} | {}",
+            v.join(" "),
+            if conforming { "conforming" } else { "random words" },
+            if f == Filter::None { "no filter" } else { "filter" }
+        );
+        Trial::Views { plain, styled, conforming, label }
+    }
+}
+
+// ------------------------------------------------------------------------------------------------
+// C12
+// ------------------------------------------------------------------------------------------------
+pub struct PayloadCut;
+
+impl Scenario for PayloadCut {
+    fn property(&self) -> &'static str {
+        "C12"
+    }
+    fn n_cases(&self, tier: Tier) -> u64 {
+        match tier {
+            Tier::Quick => 3_000,
+            Tier::Thorough => 150_000,
+        }
+    }
+    fn rule(&self) -> String {
+        "three kinds of case. (1) word table from the views: arbitrary-header packets whose payloads hold 0..700 \
+         random ITS words in format 0 (16-byte slots) or format 2 (10-byte words + 0..15 bytes 0xFF; every residue of \
+         the size mod 10 and mod 16 occurs) shown by `view its-readout-frames-data -d` / `view its-readout-frames -d`: \
+         rows == the independent word table (every word once, in order, at its offset, with its bytes; no row made \
+         of padding). (2) words planted as position markers: conforming multi-link streams (both formats, padding \
+         0..15) in which data words at chosen indices get an invalid ID; `check sanity its` / `check all its` must \
+         report exactly those offsets (E991/E70) and nothing else. (3) excess-padding fault (16..40 bytes 0xFF) on a \
+         continuation page (mid-continuation) or on the last data page before a stop page, with recovery: exactly one \
+         `Payload error following RDH` at that RDH, no message inside the skipped payload, and the next packet is \
+         judged from the initial state (mid-continuation: no further error; before a stop page: the DDW0 is judged \
+         as the expected IHW, [E30]). All under seeded schedules and benign I/O faults. Non-trivial: >= 4 threads \
+         (checks) / >= 2 packets (views)."
+            .into()
+    }
+    fn make(&self, seed: u64, case: u64, _tier: Tier) -> Trial {
+        let mut rng = Rng::new(seed);
+        match case % 3 {
+            0 => {
+                // (1) views
+                let n = rng.range(1, 12) as usize;
+                let mw = *rng.pick(&[0usize, 1, 2, 9, 40, 200, 700]);
+                let input = gen_framed_words(&mut rng, n, mw, 1, 0, true);
+                let v = if rng.chance(1, 2) { VIEW_MODES[2] } else { VIEW_MODES[1] };
+                let mut parts = s(v);
+                let im = pick_input_mode(&mut rng);
+                let mut styled = specgen::spec(im.clone(), &parts, input.clone());
+                parts.push("-d".into());
+                let mut plain = specgen::spec(im, &parts, input);
+                for sp in [&mut plain, &mut styled] {
+                    if rng.chance(1, 2) {
+                        swarm_schedule(sp, &mut rng, 500);
+                    }
+                    if rng.chance(1, 2) {
+                        benign_io(sp, &mut rng);
+                    }
+                }
+                Trial::Views { plain, styled, conforming: false, label: format!("word table | {}", v.join(" ")) }
+            }
+            1 => {
+                // (2) markers
+                let mut cfg = GenCfg::swarm(&mut rng, false);
+                cfg.data_words = (1, 30);
+                cfg.p_no_data = 100;
+                let mut st = gen_conforming(&cfg, &mut rng);
+                let offs = st.offsets();
+                let mut markers = Vec::new();
+                let want = rng.range(1, 6);
+                for _ in 0..want * 4 {
+                    if markers.len() as u64 >= want || st.order.is_empty() {
+                        break;
+                    }
+                    let idx = rng.usize_below(st.order.len());
+                    let base = offs[idx];
+                    let p = st.packet_mut(idx);
+                    let cands: Vec<usize> = p
+                        .words
+                        .iter()
+                        .enumerate()
+                        .filter(|(_, w)| w.kind == itsgen::words::Kind::Data)
+                        .map(|(i, _)| i)
+                        .collect();
+                    if cands.is_empty() {
+                        continue;
+                    }
+                    let wi = cands[rng.usize_below(cands.len())];
+                    // an ID that is no ITS word at all (not 0xFF: that would merge with the padding)
+                    p.words[wi].word[9] = *rng.pick(&[0x00u8, 0x01, 0x1F, 0x29, 0x3F, 0x47, 0x4F, 0x57, 0x5F, 0x60, 0x9A, 0xE1, 0xFE]);
+                    p.words[wi].kind = itsgen::words::Kind::Unknown;
+                    let o = (base + p.word_offset(wi)) as u64;
+                    if !markers.contains(&o) {
+                        markers.push(o);
+                    }
+                }
+                let mode = if rng.chance(1, 2) { CHECK_MODES[1] } else { CHECK_MODES[3] };
+                let im = pick_input_mode(&mut rng);
+                let mut spec = specgen::spec(im, &s(mode), st.bytes());
+                if rng.chance(3, 4) {
+                    swarm_schedule(&mut spec, &mut rng, 300 + st.total_packets() as u64 * 12);
+                }
+                if rng.chance(1, 2) {
+                    benign_io(&mut spec, &mut rng);
+                }
+                Trial::Markers { spec, marker_offsets: markers, label: format!("markers | {}", mode.join(" ")) }
+            }
+            _ => {
+                // (3) excess padding + recovery
+                let mut cfg = GenCfg::swarm(&mut rng, false);
+                cfg.data_format = 2;
+                cfg.data_pages = (2, 4);
+                cfg.p_split = 600;
+                cfg.data_words = (2, 20);
+                cfg.hbfs = (2, 4);
+                let mut st = gen_conforming(&cfg, &mut rng);
+                // candidates: continuation pages (first TDH has continuation set) whose successor in the
+                // link is a normal data page; or last data pages (successor is the stop page)
+                let mut cands: Vec<(usize, usize, bool)> = Vec::new(); // (link, packet, before_stop)
+                for (li, l) in st.links.iter().enumerate() {
+                    for pi in 0..l.packets.len().saturating_sub(1) {
+                        let p = &l.packets[pi];
+                        let nx = &l.packets[pi + 1];
+                        if p.rdh.stop_bit != 0 || nx.hbf != p.hbf {
+                            continue;
+                        }
+                        let is_cont = p.words.get(1).map_or(false, |w| {
+                            w.kind == itsgen::words::Kind::Tdh && itsgen::words::Tdh::from_word(&w.word).continuation
+                        });
+                        let ends_done = p.words.last().map_or(false, |w| {
+                            w.kind == itsgen::words::Kind::Tdt && itsgen::words::Tdt::from_word(&w.word).packet_done
+                        });
+                        if nx.rdh.stop_bit == 1 {
+                            cands.push((li, pi, true));
+                        } else if is_cont && ends_done {
+                            // next page must itself be a fresh (non-continuation) page
+                            cands.push((li, pi, false));
+                        }
+                    }
+                }
+                if cands.is_empty() {
+                    // degenerate stream: fall back to a marker-free conforming check
+                    let im = pick_input_mode(&mut rng);
+                    let spec = specgen::spec(im, &s(CHECK_MODES[3]), st.bytes());
+                    return Trial::Markers { spec, marker_offsets: vec![], label: "markers | none".into() };
+                }
+                let (li, pi, before_stop) = cands[rng.usize_below(cands.len())];
+                {
+                    let p = &mut st.links[li].packets[pi];
+                    p.padding = rng.range(16, 40) as usize;
+                    p.fix_sizes();
+                }
+                let offs = st.offsets();
+                let pos_of = |li: usize, pi: usize| -> usize {
+                    let k = st.order.iter().position(|&(l, p)| l == li && p == pi).unwrap();
+                    offs[k]
+                };
+                let rdh_off = pos_of(li, pi) as u64;
+                let payload_end = rdh_off + st.links[li].packets[pi].rdh.memory_size as u64;
+                let e30_at = if before_stop { Some(pos_of(li, pi + 1) as u64 + 64) } else { None };
+                let mode = if rng.chance(1, 2) { CHECK_MODES[1] } else { CHECK_MODES[3] };
+                let im = pick_input_mode(&mut rng);
+                let mut spec = specgen::spec(im, &s(mode), st.bytes());
+                if rng.chance(3, 4) {
+                    swarm_schedule(&mut spec, &mut rng, 300 + st.total_packets() as u64 * 12);
+                }
+                Trial::ExcessPadding {
+                    spec,
+                    rdh_off,
+                    payload_end,
+                    expect_only_payload_error: !before_stop,
+                    e30_at,
+                    label: format!(
+                        "excess padding {} | {}",
+                        if before_stop { "before stop page" } else { "mid-continuation" },
+                        mode.join(" ")
+                    ),
+                }
+            }
+        }
     }
 }
